@@ -311,6 +311,11 @@ func checkC12(col *vc.Collector, sc *C12Scn, res c12Result) {
 	if splitFell {
 		col.Count(prop, "close-between-writes-of-one-writer", 1)
 	}
+	// a peer that reads nothing: one message sits in the transport write, one in the queue of one; no
+	// further write can have been accepted before the close, and none may be accepted afterwards
+	if sc.Peer == "stalled" && len(acc) > 2 {
+		col.Violation(prop, "write-accepted-without-queue-space:"+sc.Event, fmt.Sprintf("%d writes returned nil although the peer read nothing and the outgoing queue holds one message", len(acc)), sc.ID, wit)
+	}
 	if nPanic > 0 {
 		p := ""
 		for _, o := range res.Ops {
